@@ -24,9 +24,21 @@ class Worker:
     def execute(self, ops, passive):
         return procs.fork_call(histsim.execute, self.sf, ops, passive, timeout=120.0)
 
-    def run_ops(self, ops, passive, probes=None, second=False):
+    def run_ops(self, ops, passive, probes=None, second=False, cold_seed=None):
         log = self.execute(ops, passive)
-        return log, self.verifier.verify(ops, log, probes, second)
+        viols = self.verifier.verify(ops, log, probes, second)
+        if cold_seed is not None:
+            # the same history in a cold interpreter of another hash seed must give the same log
+            cold = procs.cold_history(ops, passive, cold_seed)
+            for idx, (a, b) in enumerate(zip(log, cold)):
+                if a["r"][:2] != b["r"][:2] or a.get("p") != b.get("p"):
+                    viols.append(histsim.Violation("history_eq_cold_interpreter", idx, {
+                        "hashseed": cold_seed, "forked_zygote": repr(a["r"][:2])[:200], "cold": repr(b["r"][:2])[:200]}))
+                    viols.sort(key=lambda v: v.idx)
+                    break
+            if probes is not None:
+                probes["cold_history_replays"] = probes.get("cold_history_replays", 0) + 1
+        return log, viols
 
     def close(self):
         self.oracle.close()
@@ -52,7 +64,9 @@ def run_one(prop, base_seed, i, want_sample=False):
     probes = {}
     q0, h0 = W.oracle.queries, W.oracle.hits
     # every 4th run is judged by two oracle interpreters (hash seeds 77 and 4242) that must agree
-    log, viols = W.run_ops(ops, cfg["passive"], probes, second=(i % 4 == 0))
+    cold_seed = (1000 + i) if i % 16 == 5 else None
+    cfg["cold_seed"] = cold_seed
+    log, viols = W.run_ops(ops, cfg["passive"], probes, second=(i % 4 == 0), cold_seed=cold_seed)
     mine = [v for v in viols if prop in histsim.ORACLE_PROPS.get(v.oracle, {})]
     summary = {
         "i": i,
@@ -106,7 +120,7 @@ def judge(W, prop, cfg, ops, viols, summary, base_seed, i):
         summary["known"].append({"id": k["id"], "what": k["what"], "class": rep["violation_class"]})
         drop = {op["id"] for op in rep["ops"] if op["op"] == "mutate"}
         cur = [op for op in cur if op["id"] not in drop]
-        _, viols = W.run_ops(cur, cfg["passive"], second=(i % 4 == 0))
+        _, viols = W.run_ops(cur, cfg["passive"], second=(i % 4 == 0), cold_seed=cfg.get("cold_seed"))
 
 
 def _h(x):
@@ -161,7 +175,8 @@ def minimise(W, prop, cfg, ops, viol, budget=500):
             return None
         spent[0] += 1
         try:
-            log, viols = W.run_ops(cand, passive, second=(cls == "oracles_agree"))
+            log, viols = W.run_ops(cand, passive, second=(cls == "oracles_agree"),
+                                   cold_seed=cfg.get("cold_seed") if cls == "history_eq_cold_interpreter" else None)
         except procs.HarnessError:
             return None
         v = _same(viols, cls)
